@@ -81,7 +81,7 @@ type CStep struct {
 
 const (
 	gateTimeout = 60 * time.Second // everything must have finished by then once all gates are open (else: deadlock)
-	stepTimeout = 2 * time.Second  // a step of the schedule that does not get where the model says it gets
+	stepTimeout = 1500 * time.Millisecond // a step of the schedule that does not get where the model says it gets
 )
 
 // errInfeasible: the real code cannot take the schedule's next step at this point (for example a writer blocked
@@ -135,7 +135,7 @@ var infeasibleSeen = map[string]int{}
 func feasiblePrefix(sched []CStep) ([]CStep, bool) {
 	ppc, pend := 0, map[int]bool{}
 	for i, x := range sched {
-		if infeasibleSeen[situation(x.A, len(pend), ppc)] >= 3 {
+		if infeasibleSeen[situation(x.A, len(pend), ppc)] >= 2 {
 			return sched[:i], true
 		}
 		switch x.A {
